@@ -307,6 +307,57 @@ func runBulk(run *lib.Run, seed uint64, flatten bool) {
 	run.Add("bulk", term, copyCase{Kind: "bulk", Typ: "keyvalue", Seed: seed, Flat: fl}, fmt.Sprintf("bulk/%d/%v", seed, flatten))
 }
 
+// runBoundaryIDs creates throw-away instances until the next instance id is 255, then copies the
+// instances with ids 255 and 256 (raw) and compares every read.
+func runBoundaryIDs(run *lib.Run) {
+	root, err := dv.NewRepo("c19ids")
+	if err != nil {
+		fmt.Fprintln(os.Stderr, err)
+		os.Exit(2)
+	}
+	idOf := func(name string) int {
+		d, err := datastore.GetDataByUUIDName(dvid.UUID(root), dvid.InstanceName(name))
+		if err != nil {
+			return -1
+		}
+		return int(d.InstanceID())
+	}
+	for i := 0; i < 400; i++ {
+		name := fmt.Sprintf("burn%d", i)
+		if err := dv.NewInstance(root, "keyvalue", name, nil); err != nil {
+			break
+		}
+		if id := idOf(name); id < 0 || id >= 254 {
+			break
+		}
+	}
+	var rs []string
+	for j := 0; j < 2; j++ {
+		src, dst := fmt.Sprintf("s%d", j), fmt.Sprintf("d%d", j)
+		if err := dv.NewInstance(root, "keyvalue", src, nil); err != nil {
+			continue
+		}
+		id := idOf(src)
+		keys := []string{"a", "b", "zz"}
+		for _, k := range keys {
+			dv.Post("/api/node/"+root+"/"+src+"/key/"+k, []byte("v-"+k))
+		}
+		if err := copyInstance(root, src, dst, false); err != nil {
+			run.Notes = append(run.Notes, "boundary-id: "+err.Error())
+			rs = append(rs, fmt.Sprintf("(%d,false)", id))
+			continue
+		}
+		ok := true
+		for _, k := range keys {
+			x, y := dv.Get("/api/node/"+root+"/"+src+"/key/"+k), dv.Get("/api/node/"+root+"/"+dst+"/key/"+k)
+			ok = ok && x.Status == 200 && y.Status == 200 && string(x.Body) == string(y.Body)
+		}
+		run.Count(fmt.Sprintf("copy:source-instance-id-%d", id))
+		rs = append(rs, fmt.Sprintf("(%d,%s)", id, lib.CoqBool(ok)))
+	}
+	run.Add("boundary-ids", fmt.Sprintf("COther 5 false [%s]", strings.Join(rs, ";")), copyCase{Kind: "boundary-ids", Typ: "keyvalue"}, "boundary-ids")
+}
+
 func fl0(flatten bool, v int) int {
 	if flatten {
 		return v
@@ -337,6 +388,8 @@ func main() {
 			runImageblk(run, c.Seed, c.Flat > 0)
 		} else if c.Kind == "bulk" {
 			runBulk(run, c.Seed, c.Flat > 0)
+		} else if c.Kind == "boundary-ids" {
+			runBoundaryIDs(run)
 		} else {
 			runKV(run, rng, &c, 3)
 		}
@@ -362,6 +415,8 @@ func main() {
 	}
 	runBulk(run, rng.U64()%1000000, false)
 	runBulk(run, rng.U64()%1000000, true)
+	// instance ids at byte boundaries (0xFF -> 0x100): the source key range is built from id and id+1
+	runBoundaryIDs(run)
 	run.Finish("c19case",
 		"random branched keyvalue histories (values inherited, overwritten, deleted at different depths, merges) followed by CopyInstance raw or flattened at a random version; every key read at every version from source and copy; ROI instances over branched DAGs likewise; distinct = distinct (history, copy mode)",
 		tail)
